@@ -302,6 +302,22 @@ Example rlib_deps_example :
   = [None; Some []; None; Some [1%N]].
 Proof. vm_compute. reflexivity. Qed.
 
+(* a library file `lib<crate>-<hash>.rlib` of the -L directories belongs to <crate>: the prefix is removed exactly once,
+   so the library of every crate the externs' metadata names is packaged, also when the crate's own name starts with
+   "lib" (libc, libz_sys, ...) *)
+Theorem C13_lib_prefix_once : forall (dep_names : list name) (n : name),
+  crate_of_libname (lib_prefix ++ n) = Some n
+  /\ (In n dep_names -> lib_packaged dep_names (lib_prefix ++ n) = true).
+Proof. intros d n. split; [apply Proofs.DistPaths.lib_prefix_once | apply Proofs.DistPaths.named_lib_is_packaged]. Qed.
+Print Assumptions C13_lib_prefix_once.
+
+(* removing the prefix as often as it occurs: liblibc-<hash>.rlib would belong to a crate `c` *)
+Theorem C13_lib_prefix_trim_all_refuted :
+  trim_all_lib 10 (lib_prefix ++ [108; 105; 98; 99]%N) = [99%N]
+  /\ crate_of_libname (lib_prefix ++ [108; 105; 98; 99]%N) = Some [108; 105; 98; 99]%N.
+Proof. exact Proofs.DistPaths.trim_all_refuted. Qed.
+Print Assumptions C13_lib_prefix_trim_all_refuted.
+
 (* ------------------------------------------------------------------ route status classes, compiler aliases *)
 
 (* Gen/C13Routes.v is the table of the scheduler's and the build server's routes as they are in src/dist/http.rs
